@@ -85,17 +85,25 @@ def meanPoint3 (pts : List (V3 α)) : V3 α :=
 
 /-- `curve.at_closest_to_point(p).surface_point()`: closest point by exhaustive scan, normal = edge
     direction turned by −90°.  The flag says that the answer is at (or within `1e-9` of) a vertex,
-    where the edge — hence the normal — is a matter of tie-breaking. -/
+    or that another edge is equally close to within rounding: there the edge — hence the normal —
+    is a matter of tie-breaking. -/
+def edgeTie2 (p : V2 α) (best : Nat) (d2 : α) : List (V2 α) → Nat → Bool
+  | a :: b :: r, i =>
+    let eps : α := Scalar.ofRat 1 1000000000
+    (i != best && decide ((closestOnSegment p a b).2.2 ≤ d2 * (1 + eps))) || edgeTie2 p best d2 (b :: r) (i + 1)
+  | _, _ => false
+
 def closestSurface2 (verts : List (V2 α)) (p : V2 α) : SP2 α × Bool :=
   match closestOnPolyline verts p with
   | none => (⟨p, ⟨0, 0⟩⟩, true)
-  | some (i, t, q, _) =>
+  | some (i, t, q, d2) =>
     let a := verts.getD i ⟨0, 0⟩
     let b := verts.getD (i + 1) ⟨0, 0⟩
     let d := V2.sub b a
     let len := V2.norm d
     let eps : α := Scalar.ofRat 1 1000000000
-    (⟨q, ⟨d.y / len, -(d.x / len)⟩⟩, decide (t ≤ eps) || decide (1 - eps ≤ t))
+    (⟨q, ⟨d.y / len, -(d.x / len)⟩⟩,
+      decide (t ≤ eps) || decide (1 - eps ≤ t) || edgeTie2 p i d2 verts 0)
 
 /-- `mesh.surf_closest_to(p)`: closest point by exhaustive scan over the faces, normal of the
     winning face; the flag says that the closest point is not interior to that face (edge / vertex:
